@@ -39,7 +39,7 @@ def collect(chk, prop):
     plans = []
     for i in range(900 if thorough else 150):
         n = rng.choice([10, 12, 16, 20, 24])
-        sizes = rng.choice([[2], [2, 3], [2, 3], [2, 3, 4], [3]])
+        sizes = rng.choice([[2], [2, 3], [2, 3], [2, 3, 4], [3], ["d"], [2, "d"], [3, "d"]])
         mode = rng.choice(["random", "holes", "uniform", "assort"]) if prop == "C11" else rng.choice(["holes", "holes", "random"])
         plans.append((n, sizes, rng.choice([0.6, 0.9, 1.2]), mode, rng.choice([0, 1, 2, 3, 5, 8]), rng.choice([-1, -1, 5, 60])))
     for i in range(40 if thorough else 8):      # larger networks, longer histories
